@@ -77,3 +77,13 @@ def deep(r) -> int:
     if os.environ.get("VERIF_DEEP") == "1" and r.random() < 0.5:
         return r.choice([2, 3, 4])
     return 1
+
+
+def errname(e) -> str:
+    """Name under which an exception is judged: like the front end (isinstance), a subclass of one of the two
+    run-time error types counts as that type."""
+    names = [c.__name__ for c in type(e).__mro__]
+    for base in ("InstructionExecutionException", "StepSequenceError"):
+        if base in names:
+            return base
+    return names[0]
